@@ -19,8 +19,9 @@ RULE = ('Hypothesis sentences of the parsers\' language (closed, non-vacuous, no
         'independent renderer for the documented standard ASCII alphabet (outer parentheses optional, random extra whitespace, '
         'identity prefix or infix) followed by Parser(standard) returns s, also with a fresh auto-declaring parser and with a parser '
         'given the exact predicates; (d) injectivity: per (notation, format, dialect) x standard-writer option set a dictionary '
-        'rendered -> sentence over all generated sentences plus an exhaustive small universe (depth <= 2 over 2 letters, 2 constants, '
-        'F/1, F/2, G/2, =): two different sentences with one string is a violation. Non-trivial = a sentence with a subscript >= 10, '
+        'rendered -> sentence over all generated sentences, four one-point neighbours of each (one parameter changed, two swapped, one operator, '
+        'operands swapped, one letter) plus an exhaustive small universe (depth <= 2 over 2 letters, 2 constants, '
+        'F/1, F/2, G/2, H/3, H/4, =; max_infix in {0, 3, 5}): two different sentences with one string is a violation. Non-trivial = a sentence with a subscript >= 10, '
         'an infix identity, or a nested binary operator; distinct by sentence.')
 ASSUMPTIONS = ['the documented alphabets are the parse tables of lang/_symdata.py as transcribed in vf/ast.py std()/pol()']
 
@@ -89,7 +90,7 @@ def configs():
             for fmt, dialects in sorted(notn.formats.items()):
                 for dia in sorted(dialects):
                     if notn.name == 'standard':
-                        for dp, ii, mi in product((True, False), (True, False), (0, 3)):
+                        for dp, ii, mi in product((True, False), (True, False), (0, 3, 5)):
                             out.append((notn.name, fmt, dia, dict(drop_parens=dp, identity_infix=ii, max_infix=mi)))
                     else:
                         out.append((notn.name, fmt, dia, {}))
@@ -211,11 +212,62 @@ class Injectivity:
         return out
 
 
+def neighbours(draw, s, k=4):
+    """Sentences that differ from s at exactly one point (one parameter, two parameters swapped, one operator, operands
+    swapped, one letter): the inputs on which a writer that drops or merges information collides."""
+    out = []
+    paths = []
+
+    def walk(x, path):
+        paths.append((path, x))
+        if x[0] == 'O':
+            for i, c in enumerate(x[2]):
+                walk(c, path + (i,))
+        elif x[0] == 'Q':
+            walk(x[3], path + (0,))
+    walk(s, ())
+
+    def put(x, path, new):
+        if not path:
+            return new
+        if x[0] == 'O':
+            return ('O', x[1], tuple(put(c, path[1:], new) if i == path[0] else c for i, c in enumerate(x[2])))
+        return ('Q', x[1], x[2], put(x[3], path[1:], new))
+    for _ in range(k):
+        path, x = paths[draw(st.integers(0, len(paths) - 1))]
+        if x[0] == 'A':
+            y = A.atom((x[1] + 1) % 5, x[2]) if draw(st.booleans()) else A.atom(x[1], x[2] + 1)
+        elif x[0] == 'P':
+            ps = list(x[2])
+            i = draw(st.integers(0, len(ps) - 1))
+            if len(ps) > 1 and draw(st.booleans()):
+                j = draw(st.integers(0, len(ps) - 1))
+                ps[i], ps[j] = ps[j], ps[i]
+            elif ps[i][0] == 'c':
+                ps[i] = A.const((ps[i][1] + 1) % 4, ps[i][2]) if draw(st.booleans()) else A.const(ps[i][1], ps[i][2] + 1)
+            y = ('P', x[1], tuple(ps))
+        elif x[0] == 'O':
+            n = len(x[2])
+            if n == 2 and draw(st.booleans()):
+                y = ('O', x[1], (x[2][1], x[2][0]))
+            else:
+                same = [o for o in A.OPS if A.OPS[o] == n and o != x[1]]
+                y = ('O', same[draw(st.integers(0, len(same) - 1))], x[2])
+        else:
+            y = ('Q', 'Existential' if x[1] == 'Universal' else 'Universal', x[2], x[3])
+        t = put(s, path, y)
+        if t != s:
+            out.append(t)
+    return out
+
+
 def small_universe():
     a, b = A.const(0), A.const(1)
     F1, F2, G2 = (0, 0, 1), (0, 0, 2), (1, 0, 2)
+    H3, H4 = (2, 0, 3), (2, 1, 4)
     leaves = [A.atom(0), A.atom(1), ('P', F1, (a,)), ('P', F1, (b,)), ('P', F2, (a, b)), ('P', F2, (a, a)),
               ('P', G2, (a, b)), ('P', G2, (b, a)), ('P', 'Identity', (a, b)), ('P', 'Identity', (a, a))]
+    leaves += [('P', H3, ps) for ps in product((a, b), repeat=3)] + [('P', H4, ps) for ps in product((a, b), repeat=4)]
     un = [o for o in A.OPS if A.OPS[o] == 1]
     bi = [o for o in A.OPS if A.OPS[o] == 2]
     d1 = list(leaves) + [A.op(o, s) for o in un for s in leaves] + [A.op(o, s, t) for o in bi for s in leaves[:6] for t in leaves[:6]]
@@ -259,8 +311,9 @@ def run_random(shard, acc):
                  sample=f'{A.pol(s)}  /  {variants[-1][1]!r}')
         for fp, d in res:
             acc.finding(fp, case, d)
-        for fp, d, other in inj.add(s):
-            acc.finding(fp, dict(kind='collision', a=A.to_json(s), b=A.to_json(other) if other else None), d)
+        for t in [s] + neighbours(data.draw, s):
+            for fp, d, other in inj.add(t):
+                acc.finding(fp, dict(kind='collision', a=A.to_json(t), b=A.to_json(other) if other else None), d)
         if data.draw(st.integers(0, 3)) == 0:
             n = data.draw(st.integers(0, 4))
             prem = []
